@@ -9,7 +9,8 @@
 // After its program producer 0 waits for the other producers, waits for quiescence (snapshot), disposes of the task sets
 // (a set whose outstanding count is not zero at quiescence is reported as "wait would hang" and leaked) and destroys the pool.
 // Output (one line):
-//   events t:name:a:b ... | counts c0 c1 ... | snaps pos:wr:nthreads:nrings:nsteal:central:r0,r1,..:s0,s1,.. ... | ts hang=<n> | status S
+//   events t:name:a:b ... | counts c0 c1 ... | snaps pos:wr:nthreads:nrings:nsteal:central:r0,r1,..:s0,s1,.. ... | ts hang=<n> |
+//   n0 <n0> caps <ring cap> <steal cap> <sharing> timeouts <k> steps <k> | status S
 #include <atomic>
 #include <chrono>
 #include <cstdio>
@@ -198,7 +199,8 @@ static void runCase(const std::string& line) {
     if (s.compare(0, 5, "hang=") == 0) hang = atoi(s.c_str() + 5);
     else printf(" %s", s.c_str());
   }
-  printf(" | ts hang=%d | n0 %ld timeouts %ld steps %zu | status %s\n", hang, n0, sch.timeoutSteps, sch.steps_.size(), sch.status().c_str());
+  printf(" | ts hang=%d | n0 %ld caps %zu %zu %zu timeouts %ld steps %zu | status %s\n", hang, n0, dispenso::ThreadPool::Ring::capacity(),
+         dispenso::ThreadPool::kStealRingCapacity, dispenso::ThreadPool::kStealRingSharing, sch.timeoutSteps, sch.steps_.size(), sch.status().c_str());
   fflush(stdout);
 }
 
